@@ -188,13 +188,28 @@ def side_effects(run, rng, n):
         ex = rng.choice([np.array([0.0, 1.0, 2.0]), pd.Index([2.0, 0.0, 1.0]), [1.0, 0.0, 2.0]])
         v0, l0 = v.copy(), lab.copy()
         ex0 = copy.deepcopy(ex)
-        call = rng.choice(["reduce", "reduce_dask", "scan", "user_agg", "rechunk_bw", "rechunk_co", "xarray"])
+        call = rng.choice(["reduce", "reduce_dask", "scan", "user_agg", "rechunk_bw", "rechunk_co", "xarray", "view", "view", "readonly"])
         func = rng.choice(["sum", "nanmax", "mean", "nanvar", "count", "argmax", "nanfirst"])
         try:
             with warnings.catch_warnings():
                 warnings.simplefilter("ignore")
                 if call == "reduce":
                     flox.groupby_reduce(v, lab, func=func, expected_groups=ex, fill_value=0, sort=rng.random() < 0.5, engine=rng.choice(["numpy", "flox", None]))
+                elif call in ("view", "readonly"):
+                    # integer labels that are a VIEW (row / slice) of a larger table, with out-of-range and -1 entries
+                    table = np.array([[rng.randrange(-1, 7) for _ in range(m)] for _ in range(3)])
+                    t0 = table.copy()
+                    by = table[1] if rng.random() < 0.5 else table.reshape(-1)[m:2 * m]
+                    if call == "readonly":
+                        by.flags.writeable = False
+                        v.flags.writeable = False
+                    arr = v if rng.random() < 0.5 else da.from_array(v, chunks=3)
+                    r, _ = flox.groupby_reduce(arr, by, func=func, expected_groups=pd.RangeIndex(rng.randint(2, 5)), fill_value=0,
+                                               engine=rng.choice(["numpy", "flox", None]))
+                    np.asarray(r.compute() if hasattr(r, "compute") else r)
+                    if not np.array_equal(table, t0):
+                        lab = lab * np.nan   # force the report below
+                    v.flags.writeable = True
                 elif call == "reduce_dask":
                     r, _ = flox.groupby_reduce(da.from_array(v, chunks=3), lab, func=func, expected_groups=ex, fill_value=0, method=rng.choice([None, "map-reduce", "cohorts"]))
                     r.compute()
